@@ -227,14 +227,14 @@ pub fn check_c16(run: &mut Run) {
         let mut list = Vec::new();
         for r in g.log.iter() {
             if r.kind == "status" && r.answered_status == 200 {
-                let t = r.msg.t_last_ns;
+                let t = (r.msg.t_last_ns + r.answer_delay_ms * 1_000_000);
                 list.push(t);
                 if first_status_ok.is_none() {
                     first_status_ok = Some(t);
                 }
             }
             if r.kind == "attest" && r.answered_status == 200 && first_enabled.is_none() {
-                first_enabled = Some(r.msg.t_last_ns);
+                first_enabled = Some((r.msg.t_last_ns + r.answer_delay_ms * 1_000_000));
             }
         }
         // restart-with-key path: a latched status and a local key need no attest; the plan never pre-seeds key
@@ -317,8 +317,8 @@ pub fn check_c16(run: &mut Run) {
                 // a key event certainly happened: an attest was answered 200, or a disabled document was served
                 let g = run.hosts.lock().unwrap();
                 let disabled_doc = !crate::oracle::doc_enabled(&g.status_doc);
-                let ok_status = g.log.iter().any(|r| r.kind == "status" && r.answered_status == 200 && r.msg.t_last_ns + 2_000_000_000 < t_resp);
-                (disabled_doc && ok_status) || g.log.iter().any(|r| r.kind == "attest" && r.answered_status == 200 && r.msg.t_last_ns + 2_000_000_000 < t_resp)
+                let ok_status = g.log.iter().any(|r| r.kind == "status" && r.answered_status == 200 && (r.msg.t_last_ns + r.answer_delay_ms * 1_000_000) + 2_000_000_000 < t_resp);
+                (disabled_doc && ok_status) || g.log.iter().any(|r| r.kind == "attest" && r.answered_status == 200 && (r.msg.t_last_ns + r.answer_delay_ms * 1_000_000) + 2_000_000_000 < t_resp)
             };
             let all = t_l.map(|x| x + 2_000_000_000 < t_resp).unwrap_or(false) && t_r.map(|x| x + 2_000_000_000 < t_resp).unwrap_or(false) && key_done;
             if all && !any_notify {
